@@ -91,20 +91,23 @@ def run(prop, tier, replay, t0):
             runs, per_shard = max(jobs, int(runs * scale)), max(1, int(per_shard * scale))
             out.notes.append("VERIF_C12_SCALE=%s: budgets scaled (development run, not the registered tier)" % scale)
 
+        # small quarantine: 32 processes, allocation-heavy target (measured 2x throughput against the 256 MB default)
+        asan = {"ASAN_OPTIONS": vlib.base_env(wd)["ASAN_OPTIONS"] + ":quarantine_size_mb=16"}
+
         # 1. saved inputs: known findings (printed while they still fail) and regression inputs (must pass)
         vlib.run_saved_replays(prop, rcbin, wd, out, f_case)
         v_fuzz.run_saved_inputs(prop, fzbin, wd, out, findings)
 
         # 2. libFuzzer campaign
         seed_dirs, nlits = _seed_dirs(wd)
-        asan = vlib.base_env(wd)["ASAN_OPTIONS"] + ":quarantine_size_mb=64"     # 16 processes: keep RSS moderate
         v_fuzz.run_fuzzer(prop, fzbin, wd, out, runs, max_len, seed_dirs, dict_file=_dict(wd), jobs=jobs,
-                          thorough_time=cap, findings=f_bin, known_ids=ids, extra_env={"ASAN_OPTIONS": asan})
+                          thorough_time=cap, findings=f_bin, known_ids=ids, extra_env=asan)
         out.extra["fuzz"]["seed_literals_from_tests"] = nlits
         fuzz_execs = out.evaluations
 
         # 3. rapidcheck token sequences
-        vlib.run_rc(prop, rcbin, wd, out, per_shard, max_size, shards=vlib.NCPU, known_ids=ids, tier=tier, timeout=7200)
+        vlib.run_rc(prop, rcbin, wd, out, per_shard, max_size, shards=vlib.NCPU, known_ids=ids, tier=tier, timeout=7200,
+                    extra_env=asan)
         out.extra["rapidcheck"] = {"shards": vlib.NCPU, "cases_per_shard": per_shard, "max_size": max_size,
                                    "cases": out.evaluations - fuzz_execs}
         out.extra["libfuzzer_executions"] = fuzz_execs
